@@ -3,17 +3,19 @@
   Property theorems only; helper lemmas live in PatchModel/Lemmas.
 -/
 import PatchModel.Spec.Script
+import PatchModel.Lemmas.Ws
+import PatchModel.Lemmas.Locate
 namespace PatchModel.C02
 open PatchModel
 
 /-- the `-l` comparison is exactly "equal after collapsing blank runs and dropping trailing blanks",
     for all pairs of byte strings -/
-theorem ws_spec (a b : Bytes) : miw a b = true ↔ normWs a = normWs b := by
-  sorry
+theorem ws_spec (a b : Bytes) : miw a b = true ↔ normWs a = normWs b :=
+  miw_iff_normWs a b
 
 /-- `matches` is the spec relation `lineEqB` -/
-theorem lineMatches_spec (a b : Line) (iw : Bool) : lineMatches a b iw = lineEqB iw a b := by
-  sorry
+theorem lineMatches_spec (a b : Line) (iw : Bool) : lineMatches a b iw = lineEqB iw a b :=
+  lineMatches_eq_lineEqB a b iw
 
 /-- whatever `locate_hunk` returns for a hunk with an old side is an admissible placement at or after `min_line` -/
 theorem locate_sound (file : List Line) (h : Hunk) (iw : Bool) (offset maxFuzz : Int) (minLine : Nat) (loc : Location)
@@ -21,59 +23,24 @@ theorem locate_sound (file : List Line) (h : Hunk) (iw : Bool) (offset maxFuzz :
     ∃ p f : Nat, loc.line = (p : Int) ∧ loc.fuzz = (f : Int) ∧ minLine ≤ p ∧
       admissibleB file h iw maxFuzz p f = true ∧
       loc.offset = (p : Int) - (expectedLine h - 1 + offset) := by
-  sorry
+  obtain ⟨p, f, e, h1, _, h2, _⟩ := locateHunk_some file h iw offset maxFuzz minLine loc hc hloc
+  subst e
+  exact ⟨p, f, rfl, rfl, h1, h2, rfl⟩
 
 /-- a context-free insertion goes to its stated line, inside the file, never before the cursor -/
 theorem locate_insertion (file : List Line) (h : Hunk) (iw : Bool) (offset maxFuzz : Int) (minLine : Nat) (loc : Location)
     (hloc : locateHunk file h iw offset maxFuzz minLine = some loc) (hc : h.old.count = 0) :
     loc.fuzz = 0 ∧ loc.offset = 0 ∧ loc.line = expectedLine h - 1 + offset ∧
       (minLine : Int) ≤ loc.line ∧ loc.line ≤ (file.length : Int) := by
-  sorry
-
-/-- index of the original line an output item was copied from -/
-def fileIdx : Out → Option Nat
-  | .fromFile i _ => some i
-  | _ => none
-
-/-- original line `i` lies under a '-' line of one of the placements -/
-def deletedB (pls : List (Hunk × Nat)) (i : Nat) : Bool :=
-  pls.any fun (h, p) => decide (p ≤ i) &&
-    (match (h.lines.filter (·.op != PLUS))[i - p]? with
-     | some pl => pl.op == MINUS
-     | none => false)
-
-/-- every item tagged "original line i" really carries the bytes and terminator of line i -/
-theorem spliceAt_fromFile (file : List Line) (c : Nat) (pls : List (Hunk × Nat)) :
-    ∀ o ∈ spliceAt file c pls, ∀ i l, o = Out.fromFile i l → file[i]? = some l := by
-  sorry
-
-/-- original lines appear in order, each at most once -/
-theorem spliceAt_sorted (file : List Line) (c : Nat) (pls : List (Hunk × Nat))
-    (h : increasingB file c pls = true) :
-    ((spliceAt file c pls).filterMap fileIdx).Pairwise (· < ·) := by
-  sorry
-
-/-- an original line at or after the cursor is in the output iff no applied hunk deletes it -/
-theorem spliceAt_complete (file : List Line) (c : Nat) (pls : List (Hunk × Nat))
-    (h : increasingB file c pls = true)
-    (hops : ∀ hp ∈ pls, ∀ pl ∈ hp.1.lines, pl.op = SP ∨ pl.op = PLUS ∨ pl.op = MINUS) :
-    ∀ i, c ≤ i → i < file.length →
-      (i ∈ (spliceAt file c pls).filterMap fileIdx ↔ deletedB pls i = false) := by
-  sorry
-
-/-- **C02 at the level of apply_patch**: for every file, every sequence of well-formed hunks (any line numbers, any
-    order, overlapping), every -F, with and without -l, -R, -N, -t, -f and every tty answer stream: if
-    `apply_patch` returns, its output is the splice of the file with a list of placements that are in increasing
-    order, non-overlapping, inside the file, and each admissible. -/
-theorem C02_apply (file : List Line) (p0 : Patch) (o : ApplyOpts) (tty : Option (List Bool)) (r : ApplyResult)
-    (hwf : ∀ h ∈ p0.hunks, h.WF) (hD : o.define = [])
-    (hr : applyPatch file p0 o tty = .ok r) :
-    ∃ pls : List (Hunk × Nat),
-      r.out = spliceAt file 0 pls ∧ increasingB file 0 pls = true ∧
-      pls.length = r.applied.length ∧
-      (∀ hp ∈ pls, hp.1 ∈ r.patch.hunks ∧ hp.1.WF) ∧
-      (∀ hp ∈ pls, hp.1.old.count ≠ 0 →
-        ∃ f : Nat, admissibleB file hp.1 o.ignoreWhitespace o.maxFuzz hp.2 f = true) := by
-  sorry
+  unfold locateHunk at hloc
+  simp only [hc, if_true] at hloc
+  split at hloc
+  · cases hloc
+  · split at hloc
+    · cases hloc
+    · next hr =>
+      injection hloc with hloc
+      subst hloc
+      refine ⟨rfl, rfl, rfl, ?_, ?_⟩ <;> simp only <;> omega
 
 end PatchModel.C02
